@@ -8,7 +8,15 @@
                 at that moment (a counter is  RSet k (fun r => Some (rd r k + 1)) ; a constant is
                 RSet k (fun _ => Some v)); if the computation fails, nothing is written and the
                 history stops there;
-     RAbort      the history stops here (an evaluation error that does not involve the registers).
+     RAbort      the history stops here (an evaluation error that does not involve the registers);
+     RCase arms els
+                 a guarded choice, decided ONCE against the registers' contents at that moment: the
+                 guards are computed in order (none of them writes, so all see the same contents);
+                 each guard computed is an observation of the registers and its outcome is recorded
+                 among the values read (VBool); the first guard that holds selects its action, if
+                 none holds the action is [els]; a guard whose computation fails stops the history.
+                 An action is: nothing (ANone), one write as for RSet (AWrite k f), or a failure
+                 that stops the history (AFail).
 
    [run_reg r h] returns the values read, the final register file and whether the history was
    cut short.  "Last write wins, unset reads as NULL" is all there is to it.  This file does not
@@ -23,12 +31,47 @@ Definition rd (r : regs) (k : string) : value :=
 Definition wr (r : regs) (k : string) (v : value) : regs :=
   fun k' => if String.eqb k' k then Some v else r k'.
 
+Inductive act :=
+| ANone
+| AWrite (k : string) (f : regs -> option value)
+| AFail.
+
 Inductive op :=
 | RGet (k : string)
 | RSet (k : string) (f : regs -> option value)
-| RAbort.
+| RAbort
+| RCase (arms : list ((regs -> option bool) * act)) (els : act).
 
 Definition history := list op.
+
+(* the guards computed (as values read) and the action selected; None: a guard failed *)
+Fixpoint choose (r : regs) (arms : list ((regs -> option bool) * act)) (els : act)
+  : list value * option act :=
+  match arms with
+  | [] => ([], Some els)
+  | (g, a) :: rest =>
+      match g r with
+      | Some true => ([VBool true], Some a)
+      | Some false => let '(l, x) := choose r rest els in (VBool false :: l, x)
+      | None => ([], None)
+      end
+  end.
+
+(* what an action does: None = the history stops, Some None = nothing, Some (Some (k, v)) = a write *)
+Definition act_out (r : regs) (a : act) : option (option (string * value)) :=
+  match a with
+  | ANone => Some None
+  | AWrite k f => match f r with Some v => Some (Some (k, v)) | None => None end
+  | AFail => None
+  end.
+
+Definition case_out (r : regs) (arms : list ((regs -> option bool) * act)) (els : act)
+  : list value * option (option (string * value)) :=
+  let '(l, a) := choose r arms els in
+  (l, match a with Some a' => act_out r a' | None => None end).
+
+Definition wr_opt (r : regs) (w : option (string * value)) : regs :=
+  match w with Some (k, v) => wr r k v | None => r end.
 
 Fixpoint run_reg (r : regs) (h : history) : list value * regs * bool :=
   match h with
@@ -41,6 +84,11 @@ Fixpoint run_reg (r : regs) (h : history) : list value * regs * bool :=
       | None => ([], r, true)
       end
   | RAbort :: _ => ([], r, true)
+  | RCase arms els :: h' =>
+      match case_out r arms els with
+      | (l, Some w) => let '(reads, r', ab) := run_reg (wr_opt r w) h' in (l ++ reads, r', ab)
+      | (l, None) => (l, r, true)
+      end
   end.
 
 (* the writes a history performs from [r], resolved to values, oldest first *)
@@ -54,6 +102,12 @@ Fixpoint writes (r : regs) (h : history) : list (string * value) :=
       | None => []
       end
   | RAbort :: _ => []
+  | RCase arms els :: h' =>
+      match case_out r arms els with
+      | (_, Some (Some (k, v))) => (k, v) :: writes (wr r k v) h'
+      | (_, Some None) => writes r h'
+      | (_, None) => []
+      end
   end.
 
 (* the last value written to k, if any *)
